@@ -52,30 +52,13 @@ func init() {
 			// "preparing or running one workflow does not change the behaviour of another prepared from the
 			// same text": a second preparation, before or during the runs, and some runs on it
 			c.SecondPrepare = rapid.SampledFrom([]string{"", "", "before", "during", "during"}).Draw(t, "second_prepare")
+			if c.SecondPrepare != "" && rapid.IntRange(0, 3).Draw(t, "refused_first") == 0 {
+				// texts the engine refuses are prepared in between: a long-lived process sees plenty of those
+				c.RejectedPrepares = rapid.SampledFrom([]int{1, 3, 40, 70}).Draw(t, "refused_preparations")
+			}
 			if c.SecondPrepare != "" && len(c.Program.Subs) > 0 && rapid.Bool().Draw(t, "other_sub_files") {
 				// the second preparation gets other contents under the same sub-workflow file names
-				c.Program2 = c.Program.Clone()
-				var alter func(p *ir.Program)
-				alter = func(p *ir.Program) {
-					for _, sub := range p.Subs {
-						for _, st := range sub.Steps {
-							if st.Kind == "plugin" {
-								replaced := false
-								for i := range st.In {
-									if st.In[i].Name == "s" {
-										st.In[i].E, replaced = ir.Lit("second"), true
-									}
-								}
-								if !replaced {
-									st.In = append(st.In, ir.F("s", ir.Lit("second")))
-								}
-								break
-							}
-						}
-						alter(sub)
-					}
-				}
-				alter(c.Program2)
+				c.Program2 = otherSubFiles(c.Program)
 			}
 			if c.SecondPrepare != "" {
 				for i := range c.Clients {
@@ -123,4 +106,32 @@ func init() {
 			return out
 		},
 	})
+}
+
+// otherSubFiles is a copy of the program whose sub-workflow files have other contents under the same
+// names: the first plugin step of each gets `s: "second"`.
+func otherSubFiles(p *ir.Program) *ir.Program {
+	q := p.Clone()
+	var alter func(p *ir.Program)
+	alter = func(p *ir.Program) {
+		for _, sub := range p.Subs {
+			for _, st := range sub.Steps {
+				if st.Kind == "plugin" {
+					replaced := false
+					for i := range st.In {
+						if st.In[i].Name == "s" {
+							st.In[i].E, replaced = ir.Lit("second"), true
+						}
+					}
+					if !replaced {
+						st.In = append(st.In, ir.F("s", ir.Lit("second")))
+					}
+					break
+				}
+			}
+			alter(sub)
+		}
+	}
+	alter(q)
+	return q
 }
